@@ -99,7 +99,7 @@ def check_string(s, full=True):
         want = ref_urlnormalize(s)
         if (want[0] == "exact" and got != want[1]) or (want[0] == "prefix" and not got.startswith(want[1])):
             out.append(("urlnormalize:wrong", "urlnormalize(%r) = %r, expected %r" % (s, got, want)))
-        if got.lower().startswith("file:/") and not got.startswith("file:///"):
+        if got.lower().startswith("file:/") and not got.lower().startswith("file:///"):
             out.append(("urlnormalize:not-triple-slash", "urlnormalize(%r) = %r" % (s, got)))
     except Exception as e:  # noqa
         out.append(("urlnormalize:raises:%s" % type(e).__name__, repr(s)))
@@ -116,7 +116,7 @@ def check_string(s, full=True):
             want = ref_urlnormalize(s)
             if (want[0] == "exact" and u != want[1]) or (want[0] == "prefix" and not u.startswith(want[1])):
                 out.append(("urldefrag:not-normalised", "urldefrag(%r) = %r" % (s, (u, frag))))
-        if u.lower().startswith("file:/") and not u.startswith("file:///"):
+        if u.lower().startswith("file:/") and not u.lower().startswith("file:///"):
             out.append(("urldefrag:not-triple-slash", "urldefrag(%r) = %r" % (s, (u, frag))))
     except Exception as e:  # noqa
         out.append(("urldefrag:raises:%s" % type(e).__name__, repr(s)))
@@ -153,7 +153,7 @@ def check_string(s, full=True):
                     out.append(("normalizeURL:fragment-accepted", "normalizeURL(%r) = %r" % (s, got)))
                 if "#" in got:
                     out.append(("normalizeURL:keeps-hash", "normalizeURL(%r) = %r" % (s, got)))
-                if got.lower().startswith("file:/") and not got.startswith("file:///"):
+                if got.lower().startswith("file:/") and not got.lower().startswith("file:///"):
                     out.append(("normalizeURL:not-triple-slash", "normalizeURL(%r) = %r" % (s, got)))
         except ZConfig.ConfigurationError:
             if ref_ispath(s) or k < 0 or not s[k + 1:]:
@@ -591,8 +591,14 @@ def shards(tier, seed):
 def run_shard(spec):
     res = Result()
     if spec["kind"] == "short":
-        for s in [""] + list(ALPHABET):
+        cased = []
+        for tail in (":", ":/", ":a", ":/a", ":/a/b.c", "://", ":///", ":///a", ":/C:/a", ":/a#f", ":a#f", ":/#", "://h/a"):
+            for scheme in ("FILE", "File", "fILE", "filE", "FiLe", "HTTP", "Http"):
+                cased.append(scheme + tail)
+        for s in [""] + list(ALPHABET) + cased:
             res.evaluations += 1
+            if ":" in s:
+                res.nontrivial()
             for sig, d in check_string(s):
                 res.fail(sig, {"kind": "string", "s": s}, d)
         return res
